@@ -91,6 +91,7 @@ func clone(ps *seg.PathSegment) *seg.PathSegment {
 func main() {
 	out := flag.String("out", "beacon.ndjson", "trace file")
 	n := flag.Int("n", 300, "number of Extend calls")
+	conc := flag.Int("conc", 0, "rounds of the concurrent Originator / Propagator mode")
 	flag.Parse()
 	wr := vt.NewWriter(*out)
 	defer wr.Close()
@@ -233,73 +234,82 @@ func main() {
 		entry := vt.M{"local": "", "next": "", "mtu": 0, "inmtu": 0, "in": 0, "eg": 0, "exp": 0, "peers": []vt.M{},
 			"hopmac": false, "signer": 0, "verified": false, "cover": []vt.M{}}
 		if xerr == nil && len(ps.ASEntries) == before+1 {
-			e := ps.ASEntries[before]
-			// MAC validity by independent re-computation
-			beta := ps.Info.SegmentID
-			for _, p := range ps.ASEntries[:before] {
-				beta ^= binary.BigEndian.Uint16(p.HopEntry.HopField.MAC[:2])
-			}
-			tsec := uint32(ps.Info.Timestamp.Unix())
-			h := e.HopEntry.HopField
-			want := segs.HopMAC(self.Key, beta, tsec, h.ExpTime, h.ConsIngress, h.ConsEgress)
-			pbeta := beta ^ binary.BigEndian.Uint16(h.MAC[:2])
-			ps2 := []vt.M{}
-			for _, p := range e.PeerEntries {
-				pw := segs.HopMAC(self.Key, pbeta, tsec, p.HopField.ExpTime, p.HopField.ConsIngress, p.HopField.ConsEgress)
-				ps2 = append(ps2, vt.M{"ia": segs.IAStr(p.Peer), "rif": int(p.PeerInterface), "mtu": p.PeerMTU,
-					"in": int(p.HopField.ConsIngress), "eg": int(p.HopField.ConsEgress), "exp": int(p.HopField.ExpTime),
-					"macok": bytes.Equal(pw[:], p.HopField.MAC[:])})
-			}
-			// which signer signed
-			sidx := 0
-			if hdr, err := signed.ExtractUnverifiedHeader(e.Signed); err == nil {
-				var kid cppb.VerificationKeyID
-				if proto.Unmarshal(hdr.VerificationKeyID, &kid) == nil {
-					for k, c := range certs {
-						if bytes.Equal(c.SubjectKeyID, kid.SubjectKeyId) && addr.IA(kid.IsdAs) == self.IA {
-							sidx = k + 1
-						}
-					}
-				}
-			}
-			verr := segverifier.VerifySegment(ctx, ver, nil, ps)
-			// signature coverage: altering anything earlier must make the new entry's verification fail
-			bound := ver.WithIA(self.IA)
-			cover := []vt.M{}
-			try := func(what string, idx int, mut func(c *seg.PathSegment)) {
-				c := clone(ps)
-				mut(c)
-				cover = append(cover, vt.M{"what": what, "idx": idx,
-					"rejected": c.VerifyASEntry(ctx, bound, before) != nil})
-			}
-			try("none", 0, func(c *seg.PathSegment) {})
-			try("info", 0, func(c *seg.PathSegment) { c.Info.Raw = flip(c.Info.Raw, rng) })
-			try("own-body", before, func(c *seg.PathSegment) {
-				c.ASEntries[before].Signed.HeaderAndBody = flip(c.ASEntries[before].Signed.HeaderAndBody, rng)
-			})
-			for j := 0; j < before; j++ {
-				j := j
-				try("earlier-body", j, func(c *seg.PathSegment) {
-					c.ASEntries[j].Signed.HeaderAndBody = flip(c.ASEntries[j].Signed.HeaderAndBody, rng)
-				})
-				try("earlier-signature", j, func(c *seg.PathSegment) {
-					c.ASEntries[j].Signed.Signature = flip(c.ASEntries[j].Signed.Signature, rng)
-				})
-			}
-			if before > 0 {
-				c := clone(ps)
-				c.ASEntries = c.ASEntries[1:] // the entry under test moves down by one
-				cover = append(cover, vt.M{"what": "earlier-entry-removed", "idx": 0,
-					"rejected": c.VerifyASEntry(ctx, bound, before-1) != nil})
-			}
-			entry = vt.M{"local": segs.IAStr(e.Local), "next": segs.IAStr(e.Next), "mtu": e.MTU,
-				"inmtu": e.HopEntry.IngressMTU, "in": int(h.ConsIngress), "eg": int(h.ConsEgress),
-				"exp": int(h.ExpTime), "peers": ps2, "hopmac": bytes.Equal(want[:], h.MAC[:]), "signer": sidx,
-				"verified": verr == nil, "cover": cover}
+			entry = observe(ctx, ver, ps, before, self, certs, rng, false)
 		}
 		ev["entry"] = entry
 		wr.Emit(vt.M{"ev": "reset", "case": i})
 		wr.Emit(ev)
 	}
-	fmt.Printf("extend calls=%d ok=%d err=%d\n", *n, nok, nerr)
+	no, np := runConcurrent(ctx, wr, world, ver, *conc)
+	fmt.Printf("extend calls=%d ok=%d err=%d originated=%d propagated=%d\n", *n, nok, nerr, no, np)
+}
+
+// observe collects the observations about the AS entry at index `before` of ps (the entry the AS
+// `self` has just added): MAC validity by independent re-computation, the signer that signed, the
+// verdict of the real segment verifier and the signature-coverage probes.
+func observe(ctx context.Context, ver compat.Verifier, ps *seg.PathSegment, before int, self *segs.AS,
+	certs []trust.Signer, rng *rand.Rand, light bool) vt.M {
+	e := ps.ASEntries[before]
+	// MAC validity by independent re-computation
+	beta := ps.Info.SegmentID
+	for _, p := range ps.ASEntries[:before] {
+		beta ^= binary.BigEndian.Uint16(p.HopEntry.HopField.MAC[:2])
+	}
+	tsec := uint32(ps.Info.Timestamp.Unix())
+	h := e.HopEntry.HopField
+	want := segs.HopMAC(self.Key, beta, tsec, h.ExpTime, h.ConsIngress, h.ConsEgress)
+	pbeta := beta ^ binary.BigEndian.Uint16(h.MAC[:2])
+	ps2 := []vt.M{}
+	for _, p := range e.PeerEntries {
+		pw := segs.HopMAC(self.Key, pbeta, tsec, p.HopField.ExpTime, p.HopField.ConsIngress, p.HopField.ConsEgress)
+		ps2 = append(ps2, vt.M{"ia": segs.IAStr(p.Peer), "rif": int(p.PeerInterface), "mtu": p.PeerMTU,
+			"in": int(p.HopField.ConsIngress), "eg": int(p.HopField.ConsEgress), "exp": int(p.HopField.ExpTime),
+			"macok": bytes.Equal(pw[:], p.HopField.MAC[:])})
+	}
+	// which signer signed
+	sidx := 0
+	if hdr, err := signed.ExtractUnverifiedHeader(e.Signed); err == nil {
+		var kid cppb.VerificationKeyID
+		if proto.Unmarshal(hdr.VerificationKeyID, &kid) == nil {
+			for k, c := range certs {
+				if bytes.Equal(c.SubjectKeyID, kid.SubjectKeyId) && addr.IA(kid.IsdAs) == self.IA {
+					sidx = k + 1
+				}
+			}
+		}
+	}
+	verr := segverifier.VerifySegment(ctx, ver, nil, ps)
+	// signature coverage: altering anything earlier must make the new entry's verification fail
+	bound := ver.WithIA(self.IA)
+	cover := []vt.M{}
+	try := func(what string, idx int, mut func(c *seg.PathSegment)) {
+		c := clone(ps)
+		mut(c)
+		cover = append(cover, vt.M{"what": what, "idx": idx,
+			"rejected": c.VerifyASEntry(ctx, bound, before) != nil})
+	}
+	try("none", 0, func(c *seg.PathSegment) {})
+	try("info", 0, func(c *seg.PathSegment) { c.Info.Raw = flip(c.Info.Raw, rng) })
+	try("own-body", before, func(c *seg.PathSegment) {
+		c.ASEntries[before].Signed.HeaderAndBody = flip(c.ASEntries[before].Signed.HeaderAndBody, rng)
+	})
+	for j := 0; j < before && !light; j++ {
+		j := j
+		try("earlier-body", j, func(c *seg.PathSegment) {
+			c.ASEntries[j].Signed.HeaderAndBody = flip(c.ASEntries[j].Signed.HeaderAndBody, rng)
+		})
+		try("earlier-signature", j, func(c *seg.PathSegment) {
+			c.ASEntries[j].Signed.Signature = flip(c.ASEntries[j].Signed.Signature, rng)
+		})
+	}
+	if before > 0 && !light {
+		c := clone(ps)
+		c.ASEntries = c.ASEntries[1:] // the entry under test moves down by one
+		cover = append(cover, vt.M{"what": "earlier-entry-removed", "idx": 0,
+			"rejected": c.VerifyASEntry(ctx, bound, before-1) != nil})
+	}
+	return vt.M{"local": segs.IAStr(e.Local), "next": segs.IAStr(e.Next), "mtu": e.MTU,
+		"inmtu": e.HopEntry.IngressMTU, "in": int(h.ConsIngress), "eg": int(h.ConsEgress),
+		"exp": int(h.ExpTime), "peers": ps2, "hopmac": bytes.Equal(want[:], h.MAC[:]), "signer": sidx,
+		"verified": verr == nil, "cover": cover}
 }
